@@ -36,7 +36,7 @@ AMBIG = [False]
 def pd(case, a, b):
     """colvarproxy_system::position_distance(a, b): minimum image of b - a in the orthorhombic cell of the case"""
     d = vsub(b, a)
-    L = case.get("cell")
+    L = None if case.get("nopbc") else case.get("cell")      # forceNoPBC: plain differences although the engine has a cell
     if not L:
         return d
     out = []
@@ -270,6 +270,8 @@ def comp_block(comp, single):
                 L.append("    normalizeVector on")
     if comp.get("onesite"):
         L.append("    oneSiteTotalForce on")
+    if comp.get("nopbc"):
+        L.append("    forceNoPBC on")
     L.append("  }")
     return L
 
@@ -280,8 +282,20 @@ def other_block(case):
             "    group2 {", "      atomNumbers %d" % f[1], "    }", "  }", "}"]
 
 
-def config_text(case, with_other=True):
+def bias_block(case):
+    b = case["bias"]
+    tsf = ["  timeStepFactor %d" % case["tsf"]] if case.get("tsf") else []
+    if b["type"] == "linear":
+        return ["linear {", "  name b", "  colvars v", "  centers 0.0", "  forceConstant %r" % b["k"]] + tsf + ["}"]
+    if b["type"] == "harmonic":
+        return ["harmonic {", "  name b", "  colvars v", "  centers %r" % b["c"], "  forceConstant %r" % b["k"]] + tsf + ["}"]
+    return []
+
+
+def config_text(case, with_other=True, with_bias=True):
     L = ["colvar {", "  name v", "  outputTotalForce on", "  outputAppliedForce on"]
+    if case.get("tsf") or case.get("offmode") == "define":
+        L += ["  lowerBoundary -1024", "  upperBoundary 1024", "  width 1"]
     if case["sub"]:
         L.append("  subtractAppliedForce on")
     for c in case["comps"]:
@@ -289,11 +303,11 @@ def config_text(case, with_other=True):
     L.append("}")
     if case.get("foreign") and with_other:
         L += other_block(case)
-    b = case["bias"]
-    if b["type"] == "linear":
-        L += ["linear {", "  colvars v", "  centers 0.0", "  forceConstant %r" % b["k"], "}"]
-    elif b["type"] == "harmonic":
-        L += ["harmonic {", "  colvars v", "  centers %r" % b["c"], "  forceConstant %r" % b["k"], "}"]
+    if case.get("tsf") or case.get("offmode") == "define":
+        # a consumer that applies no force keeps the variable computed at the steps at which the bias sleeps / does not exist
+        L += ["histogram {", "  name h", "  colvars v", "}"]
+    if with_bias:
+        L += bias_block(case)
     return L
 
 
@@ -310,8 +324,20 @@ def scenario(case, k):
         for i, p in enumerate(case["steps"][0]["pos"]):
             L.append("pos %d %s %s %s" % (i + 1, hx(p[0]), hx(p[1]), hx(p[2])))
         L += ["step"] * late
-    L += ["config EOF"] + config_text(case, with_other=not late) + ["EOF"] + (["hidej v"] if case["hide"] else []) + ["show tf 1 af 1 energy 0 bias 0"]
+    mode = case.get("offmode", "toggle")
+    applying = not (mode == "define" and case["steps"][0].get("off"))      # define: the bias may not exist yet
+    L += ["config EOF"] + config_text(case, with_other=not late, with_bias=applying) + ["EOF"] + (["hidej v"] if case["hide"] else []) + ["show tf 1 af 1 energy 0 bias 0"]
     for s in case["steps"]:
+        if mode != "tsf" and bool(s.get("off")) == applying:
+            # the bias stops / resumes applying its force while the variable stays active and measured:
+            # toggle = apply_force switched by script; define = the bias is deleted / defined at run time
+            applying = not applying
+            if mode == "toggle":
+                L.append("script cv bias b set apply_force %d" % (1 if applying else 0))
+            elif applying:
+                L += ["config EOF"] + bias_block(case) + ["EOF"]
+            else:
+                L.append("script cv bias b delete")
         for i, p in enumerate(s["pos"]):
             L.append("pos %d %s %s %s" % (i + 1, hx(p[0]), hx(p[1]), hx(p[2])))
         ef = s["ef"]
@@ -325,7 +351,7 @@ def scenario(case, k):
         else:
             for i, f in enumerate(ef):
                 L.append("eforce %d %s %s %s" % (i + 1, hx(f[0]), hx(f[1]), hx(f[2])))
-        L += ["step", "fj"] + (["rot v"] if any(c.get("rotate") for c in case["comps"]) else [])
+        L += ["step", "fj"] + (["rot v"] if (case["type"] == "DIV" or any(c.get("rotate") for c in case["comps"])) else [])
     L.append("echo END %d" % k)
     return L
 
@@ -365,7 +391,7 @@ def parse_impl(lines):
                 elif w[0] == "FOLD":
                     st["fold"][w[1]] = float.fromhex(w[2])
                 elif w[0] == "ROT" and w[1] == "v":
-                    st.setdefault("rot", {})[int(w[2])] = [float.fromhex(x) for x in w[4:9]]
+                    st.setdefault("rot", {})[int(w[2])] = [float.fromhex(x) for x in w[4:9]] + [int(w[9])] + [float.fromhex(x) for x in w[10:]]
                 elif w[0] == "ATOMF":
                     st["atomf"][int(w[1])] = [float.fromhex(x) for x in w[2:5]]
             except ValueError:
@@ -391,18 +417,24 @@ def periodic(case):
     return all(c["kind"] == "dihedral" and abs(c["coeff"]) == 1.0 for c in case["comps"])
 
 
+def applies(case, t):
+    """some bias applies a force to the variable at step t (f_cv_apply_force)"""
+    return case["bias"]["type"] != "none" and not case["steps"][t].get("off")
+
+
 def bias_force(case, value):
     b = case["bias"]
     if b["type"] == "none":
         return 0.0
+    tsf = float(case.get("tsf") or 1)       # impulse: the force of a bias with timeStepFactor n is multiplied by n
     if b["type"] == "linear":
-        return -b["k"]
+        return -b["k"] * tsf
     d = value - b["c"]
-    # colvar::dist2_lgrad: a homogeneous variable (all coefficients +-1) uses the metric of its FIRST component, and
-    # components are created in the alphabetical order of their keywords (std::map), not in configuration order
-    if all(abs(c["coeff"]) == 1.0 for c in case["comps"]) and min(c["kind"] for c in case["comps"]) == "dihedral":
+    # colvar::dist2_lgrad (after the C18 repair in /repo main): the periodic difference is used only when the variable
+    # itself is periodic, i.e. all its components are periodic with the same period (here: dihedrals, coefficients +-1)
+    if periodic(case):
         d = d - 360.0 * math.floor(d / 360.0 + 0.5)
-    return -b["k"] * d
+    return -b["k"] * d * tsf
 
 
 # ------------------------------------------------------------------ model case line
@@ -447,7 +479,7 @@ def comp_txt(comp):
 
 def model_line(case, isteps):
     p = ["RUN", str(case["n"])] + [hx(m) for m in case["masses"]]
-    p.append(("C " + vl([case["cell"]])) if case.get("cell") else "N")
+    p.append(("C " + vl([case["cell"]])) if (case.get("cell") and not case.get("nopbc")) else "N")
     p += [hx(BOLTZ * case["T"]), "1" if case["hide"] else "0", "1" if case["sub"] else "0", "1" if case["same"] else "0",
           "1" if case["inc"] else "0", str(len(case["comps"]))]
     for c in case["comps"]:
@@ -456,10 +488,16 @@ def model_line(case, isteps):
     for t, s in enumerate(case["steps"]):
         p.append(vl(s["pos"]))
         p.append(vl(step_eforce(case, isteps, t)))
-        p.append(hx(bias_force(case, isteps[t]["cv"].get("v", float("nan")))))
+        p.append(hx(bias_force(case, isteps[t]["cv"].get("v", float("nan"))) if applies(case, t) else 0.0))
+        p.append("1" if applies(case, t) else "0")
         for ci in rot_indices(case):
-            p.append(" ".join(hx(x) for x in isteps[t].get("rot", {}).get(ci, [1.0, 0.0, 0.0, 0.0, 0.0])))
+            p.append(rot_txt(isteps[t].get("rot", {}).get(ci, [1.0, 0.0, 0.0, 0.0, 0.0, 0]), True))
     return " ".join(p)
+
+
+def rot_txt(vals, _=True):
+    """q0 q1 q2 q3 jd nfit fit..: the count is an integer"""
+    return " ".join(hx(x) for x in vals[:5]) + " %d " % int(vals[5]) + " ".join(hx(x) for x in vals[6:])
 
 
 def rot_indices(case):
@@ -567,20 +605,18 @@ def gen_comp(r, kind, atoms, overlap=False):
 
 def inverse_ok(case):
     """the configuration satisfies the hypotheses of the inverse theorems: groups pairwise disjoint, components on
-    disjoint atoms, centred rmsd/eigenvector groups fitted on the component's own reference positions"""
+    disjoint atoms"""
     seen = set()
     for c in case["comps"]:
         at = comp_atoms(c)
         if len(set(at)) != len(at) or seen & set(at):
             return False
         seen |= set(at)
-        if c.get("center") and cog(c["gref"], range(1, len(c["ids"]) + 1)) != cog(c["refs"], range(1, len(c["ids"]) + 1)):
-            return False
     return True
 
 
 def gen_case(r, idx, typ=None, kinds=None):
-    typ = typ or r.choice(["INV", "INV", "LIN", "LOC", "TIM", "RND"])
+    typ = typ or r.choice(["INV", "INV", "LIN", "LOC", "TIM", "RND", "OFF"])
     ncomp = 1 if r.random() < 0.7 else 2
     kinds = kinds or [r.choice(KINDS) for _ in range(ncomp)]
     overlap = typ == "RND" and r.random() < 0.3
@@ -606,6 +642,11 @@ def gen_case(r, idx, typ=None, kinds=None):
     case["foreign"] = [nvar + 1, nvar + 2] if nforeign >= 2 else []
     if r.random() < 0.25:
         case["cell"] = [r.choice([4.0, 8.0, 16.0]) for _ in range(3)]
+        if r.random() < 0.3:          # forceNoPBC on every component: plain differences in a periodic engine
+            case["nopbc"] = True
+            for c in comps:
+                if "groups" in c:
+                    c["nopbc"] = True
     case["T"] = r.choice([0.0, 300.0, 300.0, 512.0])
     case["hide"] = r.random() < 0.35
     case["sub"] = r.random() < 0.35
@@ -617,7 +658,6 @@ def gen_case(r, idx, typ=None, kinds=None):
         case["bias"] = {"type": "harmonic", "k": r.choice([0.5, 1.0, 2.0]), "c": V.dyadic(r, -2, 6, bits=2)}
     if typ in ("LIN", "LOC", "TIM", "RND") and r.random() < 0.15:
         case["bias"] = {"type": "none"}         # plain measurement: no bias applies a force to the variable
-        case["hide"] = False
     if case["foreign"] and r.random() < 0.15:
         case["late"] = r.randint(1, 2)          # the variable is defined after `late` steps of the run
     if periodic(case) and case["bias"]["type"] != "none":      # a linear bias is refused on a periodic variable
@@ -666,6 +706,20 @@ def gen_case(r, idx, typ=None, kinds=None):
         E = [field() for _ in range(4)]
         steps = [{"pos": P[0], "ef": E[0]}, {"pos": P[1], "ef": E[1]}, {"pos": P[0], "ef": E[0]},
                  {"pos": P[2], "ef": E[2]}, {"pos": P[3], "ef": E[3]}]
+    elif typ == "OFF":
+        # the bias applies its force at some steps only (apply_force switched off and on again while the variable stays
+        # active and measured): the applied force is zero between non-zero ones
+        if case["bias"]["type"] == "none":
+            case["bias"] = {"type": "linear", "k": 2.0}
+        if not case["same"]:
+            case["inc"] = 1
+        case["offmode"] = r.choice(["toggle", "toggle", "tsf", "define"])
+        pat = r.choice([[0, 1, 0, 0, 1, 1, 0], [0, 0, 1, 0, 1, 0], [1, 0, 0, 1, 1, 0]])
+        if case["offmode"] == "tsf":
+            case["tsf"] = 2
+            case.pop("late", None)
+            pat = [0, 1, 0, 1, 0, 1, 0]            # awake at the even steps of the run
+        steps = [{"pos": P[i % 4], "ef": (zero if r.random() < 0.5 else field()), "off": bool(o)} for i, o in enumerate(pat)]
     else:
         steps = [{"pos": P[i % 4], "ef": field() if r.random() < 0.7 else zero} for i in range(r.randint(2, 5))]
     case["steps"] = steps
@@ -708,6 +762,39 @@ def rot_case(r, kind):
     else:
         c["inc"] = 1
         c["steps"] = [{"pos": P[0], "ef": z}, {"pos": P[1], "ef": z}, {"pos": P[0], "ef": z}]
+    return c
+
+
+DIV_H = 2.0 ** -12
+
+
+def div_case(r, kind, rotate=False):
+    """numerical divergence of the inverse gradient field: same-step forces, T = 0, no bias; unit force on one coordinate at
+    positions displaced by +-h along that coordinate gives d v_(a,k) / d x_(a,k) by central difference"""
+    c = None
+    while c is None or c.get("cell") or c.get("late") or not inverse_ok(c):       # disjoint groups: the documented setting
+        c = rot_case(r, kind) if rotate else gen_case(r, 0, "RND", [kind])
+    cc = c["comps"][0]
+    cc["coeff"] = 1.0
+    c.update({"type": "DIV", "T": 0.0, "hide": False, "sub": False, "same": 1, "inc": 0, "bias": {"type": "none"}, "invok": False})
+    c.pop("tsf", None)
+    c.pop("offmode", None)
+    n = c["n"]
+    P = c["steps"][0]["pos"]
+    zero = [[0.0, 0.0, 0.0] for _ in range(n)]
+    steps = [{"pos": P, "ef": zero}]
+    probes = []
+    for a in sorted(set(comp_atoms(cc))):
+        for k in range(3):
+            ef = [list(z) for z in zero]
+            ef[a - 1][k] = 1.0
+            for sgn in (1.0, -1.0):
+                Q = [list(p) for p in P]
+                Q[a - 1][k] += sgn * DIV_H
+                steps.append({"pos": Q, "ef": ef})
+            probes.append([a, k])
+    c["steps"] = steps
+    c["probes"] = probes
     return c
 
 
@@ -773,7 +860,8 @@ def oracle(case, isteps):
             if case["same"]:
                 exp = f + (0.0 if case["hide"] else fj)
             else:
-                exp = f + (fj if adds_fj(case) else 0.0) - (f if case["sub"] else 0.0)
+                comp = case["hide"] and applies(case, s0)
+                exp = f + (fj if not (case["hide"] and (case["sub"] or not comp)) else 0.0) - (f if case["sub"] else 0.0)
             if not close(tfs[t], exp, 1e-8):
                 tag = "hidden" if case["hide"] else ("T0" if case["T"] == 0 else "jacobian")
                 out.append(("inverse:%s:%s:%s%s" % (kd, mode, tag, ":subtract" if case["sub"] else ""),
@@ -809,6 +897,17 @@ def oracle(case, isteps):
             if tfs[1] != tfs[3]:
                 out.append(("timing:%s:lagged" % kd, "steps 1 and 3 follow identical steps (same positions, same forces) but report %r and %r: "
                             "the report of step t must be the projection of the forces of t-1 on the inverse gradients of t-1" % (tfs[1], tfs[3])))
+    if typ == "DIV":
+        jd = isteps[0].get("rot", {}).get(0, [None] * 5)[4]
+        if jd is not None and len(tfs) == 1 + 2 * len(case["probes"]):
+            div = sum((tfs[1 + 2 * i] - tfs[2 + 2 * i]) / (2.0 * DIV_H) for i in range(len(case["probes"])))
+            if abs(div - jd) > 2e-5 * max(1.0, abs(jd), abs(div)):
+                cc = case["comps"][0]
+                tag = "%s%s%s%s" % (cc["kind"], ":rotated" if cc.get("rotate") else "", ":permuted" if cc.get("perms") else "",
+                                    ":centered" if cc.get("center") else "")
+                out.append(("jacobian:divergence:%s" % tag,
+                            "the Jacobian derivative of the component is %r but the divergence of the inverse gradient field it projects the forces on "
+                            "(central differences, h = 2^-12, over the %d coordinates of its atoms) is %r" % (jd, len(case["probes"]), div)))
     if typ == "ZERO":
         # steps >= 2: the force that acted at the previous step is exactly zero
         for t in range(2, len(isteps)):
@@ -833,7 +932,7 @@ def oracle_twin(case, isteps, twin_steps):
         if case["same"] or t == 0:
             exp = 0.0
         else:
-            exp = on[t - 1]["af"]["v"] + (doc_fj(case, case["steps"][t - 1]["pos"]) if case["hide"] else 0.0)
+            exp = on[t - 1]["af"]["v"] + (doc_fj(case, case["steps"][t - 1]["pos"]) if (case["hide"] and applies(case, t - 1)) else 0.0)
         if not close(a - b, exp, 1e-8):
             out.append(("subtract:%s:%s%s" % (kd, "samestep" if case["same"] else "lagged", ":hidden" if case["hide"] else ""),
                         "step %d: total force without / with subtractAppliedForce %r / %r, difference %r; Colvars' own applied force "
@@ -939,7 +1038,7 @@ def process(run, runner, cases, sample=0):
             run.mismatch("config:%s" % kd, {"case": c}, [cs["config"]] + [s["err"] for s in cs["steps"]], "accepted, all steps ok")
             continue
         isteps = cs["steps"]
-        nontriv = c.get("invok", False) and any(delivered_is_own(c, t) is not None for t in range(len(isteps))) or c["type"] in ("LIN", "LOC", "TIM", "ZERO", "ROT")
+        nontriv = c.get("invok", False) and any(delivered_is_own(c, t) is not None for t in range(len(isteps))) or c["type"] in ("LIN", "LOC", "TIM", "ZERO", "ROT", "OFF", "DIV")
         run.count(json.dumps(c, sort_keys=True), bool(nontriv) and any(s["tf"].get("v") not in (None, 0.0) for s in isteps))
         for sig, text in oracle(c, isteps):
             run.violation(sig, text, rp)
@@ -1060,6 +1159,23 @@ def check(run):
             while c is None or not c["comps"][0].get("onesite") or c["same"] != same:
                 c = gen_case(r, 0, "LOC", [kind])
             first.append(c)
+    for kind in ("distance", "angle", "gyration"):        # applied force zero between non-zero ones, subtract on and off
+        for sub in (True, False):
+            c = None
+            want = {"distance": "toggle", "angle": "tsf", "gyration": "define"}[kind]
+            while c is None or c["same"] or c.get("offmode") != want:
+                c = gen_case(r, 0, "OFF", [kind])
+            c["sub"] = sub
+            first.append(c)
+    for rep in range(1 if quick else 12):                 # Jacobian derivative = divergence of the inverse gradient field
+        for kind in KINDS:
+            first.append(div_case(r, kind))
+        for kind, want in (("rmsd", "plain"), ("rmsd", "perm"), ("eigenvector", "raw"), ("eigenvector", "normalize")):
+            c = None
+            while c is None or {"plain": bool(c["comps"][0].get("perms")), "perm": not c["comps"][0].get("perms"),
+                                "raw": bool(c["comps"][0].get("evopt")), "normalize": not c["comps"][0].get("evopt")}[want]:
+                c = div_case(r, kind, rotate=True)
+            first.append(c)
     for i in range(24 if quick else 1200):          # rotated frames
         first.append(rot_case(r, "rmsd" if i % 2 == 0 else "eigenvector"))
     n = 300 if quick else 12000
@@ -1078,7 +1194,8 @@ def check(run):
         for b0 in range(0, len(group), B):
             process(run, runner, group[b0:b0 + B], sample=0 if shown else 3)
             shown = True
-    tw = [c for c in cases if c["type"] in ("ZERO", "INV", "TIM", "RND") and not any(cc["kind"] == "eigenvector" for cc in c["comps"])]
+    tw = [c for c in cases if c["type"] in ("OFF", "ZERO", "INV", "TIM", "RND") and not any(cc["kind"] == "eigenvector" for cc in c["comps"])]
+    tw.sort(key=lambda c: 0 if c["type"] in ("OFF", "ZERO") else 1)
     tw = tw[:120 if quick else 3000]
     for b0 in range(0, len(tw), B):
         process_twins(run, runner, tw[b0:b0 + B])
